@@ -57,12 +57,30 @@ Fixpoint dlookup (n : dnode) (q : path) : option dnode :=
       end
   end.
 
+(** symlink_metadata at an absolute path: found / ENOENT / ENOTDIR. A symlink in the middle of
+    the path is taken to dangle (ENOENT); the generators only create dangling symlinks. *)
+Inductive stat_res := SFound (n : dnode) | SNotFound | SNotDir.
+Fixpoint dstat (n : dnode) (q : path) : stat_res :=
+  match q with
+  | [] => SFound n
+  | nm :: q' =>
+      match n with
+      | DDir es =>
+          match find_entry nm es with
+          | Some ch => dstat ch q'
+          | None => SNotFound
+          end
+      | DSymlink _ _ => SNotFound
+      | _ => SNotDir
+      end
+  end.
+
 Definition is_dir (n : dnode) : bool := match n with DDir _ => true | _ => false end.
 
 Definition node_size (n : dnode) : N :=
   match n with DFile _ _ s => s | DSymlink _ s => s | _ => 0%N end.
 
-(** Names are unique in every directory. *)
+(** Names are unique in every directory, and never empty. *)
 Fixpoint names_unique (l : list string) : bool :=
   match l with
   | [] => true
@@ -72,7 +90,7 @@ Fixpoint names_unique (l : list string) : bool :=
 Fixpoint wf_node (n : dnode) : bool :=
   match n with
   | DDir es =>
-      names_unique (map fst es) &&
+      names_unique (map fst es) && negb (mem String.eqb EmptyString (map fst es)) &&
       (fix all (l : list (string * dnode)) : bool :=
          match l with [] => true | e :: r => wf_node (snd e) && all r end) es
   | _ => true
@@ -86,6 +104,12 @@ Fixpoint plookup {A} (p : path) (l : list (path * A)) : option A :=
   end.
 
 Definition pmem (p : path) (l : list path) : bool := mem path_eqb p l.
+
+Fixpoint paths_unique (l : list path) : bool :=
+  match l with
+  | [] => true
+  | a :: r => negb (pmem a r) && paths_unique r
+  end.
 
 (** PrefixMatcher (lib/src/matchers.rs:201-220) over a list of prefix paths. *)
 Definition prefix_matches (pats : list path) (p : path) : bool :=
